@@ -25,7 +25,10 @@ RULE = ("trunc: every prefix (each offset 0..len) of corpus programs from the si
         "surrogates, every quote/bracket/back-tick/punctuation/operator, comment openers, line-break sequences, every keyword; indentation of "
         "one line changed; line breaks inserted) of canonical and randomly re-laid-out renderings; unicode: strings of 1–40 items of that pool "
         "mixed with identifiers and numbers; indent: programs whose lines get random TAB/space/mixed indentation and CR/LF/CRLF/LFCR/CR-CR "
-        "breaks; " + varinput.RULE_VARINPUT + "; " + errline.RULE_ERRLINE + ". Non-trivial = the input is not accepted (an error path ran) or has ≥ 3 lines.")
+        "breaks; overindent: valid programs with one line inserted after a complete statement (at any nesting depth, also right after a block, "
+        "directly or after a blank / comment line) that is indented one or two steps deeper than that statement (or deeper than every line before it), with 4 spaces or with "
+        "TABs throughout — expected: error 20 whose cursor is the first token of the inserted line, displayed with that line's number and "
+        "caret column 0 (generator ground truth); " + varinput.RULE_VARINPUT + "; " + errline.RULE_ERRLINE + ". Non-trivial = the input is not accepted (an error path ran) or has ≥ 3 lines.")
 ASSUMPTIONS = ["'promptly' is the harness watchdog's 2 s (a `timeout` answer is re-run alone twice before it counts: the machine may be busy)",
                "lone surrogates print as U+FFFD (Go's string conversion); the quoted-line check compares modulo that substitution"] + varinput.ASSUMPTIONS_VARINPUT + errline.ASSUMPTIONS_ERRLINE
 PARTIAL = ("termination, cursor bound, absence of panics and completeness are proved for the parser over ANY lexer meeting LexOK (Proofs/ParserHoare); "
@@ -195,6 +198,21 @@ def run(ctx):
     check(ctx, 'indent', ind)
     # texts the grammar does not derive (incl. the three witnesses of the parser defects): a clean syntax error, promptly
     check(ctx, 'ungrammatical', pc.ungrammatical(rng, ctx.n(3 * len(pc.UNGRAMMATICAL), 20 * len(pc.UNGRAMMATICAL))))
+    # a complete statement followed by an over-indented line: error 20 ON that line, at its first token (generator ground truth)
+    ov = []
+    for s, sp in zip(canon, spans):
+        ov += pc.overindented(rng, s, sp, ctx.n(2, 4))
+    go, model = check(ctx, 'overindent', [t for t, _, _ in ov])
+    for (t, cur, ln), g_out in zip(ov, go):
+        f = g_out.split(' | ')
+        d = f[1].split(' ') if len(f) > 1 else []
+        ctx.count('overindent:' + ('tab' if '\t' in t else 'spaces'))
+        if f[0] != 'err syn 20 %d' % cur or len(d) < 5 or d[:3] != ['disp', 'ok', str(ln + 1)] or d[4] != '0':
+            ctx.violation('overindent:ground-truth', 'compile ' + cps(t), g_out[:300],
+                          'err syn 20 %d | disp ok %d <the over-indented line> 0   (the first token of the over-indented line)' % (cur, ln + 1))
+    if ov:
+        k = len(ov) // 2
+        ctx.sample({'stream': 'overindent', 'source': _norm(ov[k][0]), 'go': go[k][:300], 'model': model[k][:300]})
     # one Interpreter object used for two programs in a row: what the second compiles to (tree or syntax error, code, line, caret)
     # is a function of its own text — whatever was compiled before it (longer, shorter, rejected)
     pool = [('输出 0\n' + s) for s in canon] + [('输出 0\n' + s) for s in rng.sample(cor, min(len(cor), ctx.n(150, 3000)))]
@@ -206,7 +224,7 @@ def run(ctx):
         if g1 != g2 and not (g1.startswith('timeout') or g2.startswith('timeout')):
             ctx.violation('after-another-program', 'runafter %s %s' % (cps(a), cps(b)), g2, g1 + '   (the second program alone)')
         if a.count('\n') > b.count('\n') > 1:
-            ctx.nontriv(b)
+            ctx.nontriv(cps(b))       # (b may hold a lone surrogate: not encodable as it is)
     ctx.streams.append({'stream': 'after-another-program', 'cases': len(pairs)})
     # input-variable text: the same texts to the compiler and to ExecVarInputText / ExecuteVarInputText / ExecExpressionInputText
     varinput.stream(ctx, check, ctx.n(100, 3000))
